@@ -16,6 +16,10 @@ struct Registry {
 inline Registry& registry() { static Registry r; return r; }
 // every extern data type of a lab model is a distinct, non-convertible struct
 #define VERIF_DATA_TYPE(NAME) struct NAME { int v; explicit NAME(int x = 0) : v(x) {} bool operator==(const NAME& o) const { return v == o.v; } }
+// class templates behind the 'exotic' extern spellings: verif::Pair<int, long>, verif::Fn<void(int)>, ::verif::Num<-1>
+template <class A, class B> struct Pair { int v; explicit Pair(int x = 0) : v(x) {} bool operator==(const Pair& o) const { return v == o.v; } };
+template <class Sig> struct Fn { int v; explicit Fn(int x = 0) : v(x) {} bool operator==(const Fn& o) const { return v == o.v; } };
+template <int N> struct Num { int v; explicit Num(int x = 0) : v(x) {} bool operator==(const Num& o) const { return v == o.v; } };
 struct Service { int id = 4711; };
 // hit log
 struct Hits {
